@@ -642,10 +642,19 @@ pub fn run_property(p: &Property, tier: Tier, seed: u64, only_sub: Option<&str>)
     } else {
         for (fl, path) in &violations {
             println!("VIOLATION property={} replay={}", p.id, path.display());
-            println!("  sub={} sig={} :: {}", fl.sub, fl.sig, fl.message);
-            println!("  case={}", serde_json::to_string(&fl.case).unwrap_or_default());
+            println!("  sub={} sig={} :: {}", fl.sub, fl.sig, clip(&fl.message, 700));
+            println!("  case={}", clip(&serde_json::to_string(&fl.case).unwrap_or_default(), 1200));
         }
         1
+    }
+}
+
+pub fn clip(s: &str, n: usize) -> String {
+    if s.chars().count() <= n {
+        s.to_string()
+    } else {
+        let head: String = s.chars().take(n).collect();
+        format!("{}... [{} chars, full text in the replay file]", head, s.chars().count())
     }
 }
 
